@@ -5,6 +5,7 @@ import (
 	"flag"
 	"fmt"
 	"os"
+	"os/exec"
 	"runtime/debug"
 	"sort"
 	"strconv"
@@ -109,6 +110,9 @@ func main() {
 		cfgs := []LoadConfig{{GOOS: "linux", GOARCH: "amd64"}}
 		if *tier == "thorough" {
 			cfgs = thoroughConfigs()
+			if _, err := exec.LookPath("go1.26.8"); err == nil {
+				secondToolchain = "go1.26.8"
+			}
 		}
 		var results []*Result
 		var cfgNames []string
